@@ -22,6 +22,7 @@ def warm():
     _CACHE["tc"] = T.get_trainer_config()
     for bb, hd in (("unet", "single_instance"), ("convnext", "centered_instance"), ("unet", "centroid"), ("swint", "bottomup"), ("unet", "bottomup")):
         _CACHE[("mc", bb, hd)] = T.get_model_config(backbone_config=bb, head_configs=hd)
+    _CACHE["full"] = _full(_CACHE["dc"], _CACHE[("mc", "unet", "bottomup")], _CACHE["tc"])
 
 
 def _dc():
@@ -198,10 +199,14 @@ def normalisation_is_idempotent(scale: float, batch_size: int) -> bool:
     post: _
     """
     from sleap_nn.config.training_job_config import verify_training_cfg
-    T = _builders()
-    c1 = _full(T.get_data_config(train_labels_path="a.slp", val_labels_path="b.slp", scale=scale),
-               _mc("unet", "bottomup"), T.get_trainer_config(batch_size=batch_size))
+    import copy
+    # a complete, already normalised configuration (built concretely in warm()) whose two fields are then made symbolic:
+    # normalising it again must change neither them nor anything else
+    c1 = copy.deepcopy(_CACHE["full"]) if "full" in _CACHE else _full(_dc(), _mc("unet", "bottomup"), _tc())
+    c1.data_config.preprocessing.scale = scale
+    c1.trainer_config.train_data_loader.batch_size = batch_size
     c2 = verify_training_cfg(c1)
-    return (c2.data_config.preprocessing.scale == scale and c2.trainer_config.train_data_loader.batch_size == batch_size and c2.trainer_config.val_data_loader.batch_size == batch_size
-            and c1.data_config.preprocessing.scale == scale and set(c1.keys()) == set(c2.keys()) and c2.model_config.head_configs.bottomup is not None
-            and c2.model_config.head_configs.bottomup.confmaps.sigma == c1.model_config.head_configs.bottomup.confmaps.sigma)
+    return (c2.data_config.preprocessing.scale == scale and c2.trainer_config.train_data_loader.batch_size == batch_size and c1.data_config.preprocessing.scale == scale
+            and set(c1.keys()) == set(c2.keys()) and c2.model_config.head_configs.bottomup is not None
+            and c2.model_config.head_configs.bottomup.confmaps.sigma == c1.model_config.head_configs.bottomup.confmaps.sigma
+            and c2.trainer_config.val_data_loader.batch_size == c1.trainer_config.val_data_loader.batch_size)
